@@ -306,3 +306,255 @@ Proof.
   inversion I; subst. simpl. rewrite (clampv_id _ Nn).
   rewrite series_dot by exact W. ring.
 Qed.
+
+(* ====================================================================================== *)
+(* dH on a weight basis for phase-tagged reactions                                          *)
+Lemma vdot_wt_gen : forall (h w s s' : vec) (k : Q),
+  length s' = length s -> length w = length s ->
+  Forall (fun x => ~ x == 0) w ->
+  (forall i, nthq s' i * k == nthq s i * nthq w i) ->
+  vdot (map2 Qdiv h w) s' * k == vdot h s.
+Proof.
+  induction h as [|x h IH]; intros w s s' k L1 L2 NZ C.
+  - simpl. rewrite !vdot_nil_l. lra.
+  - destruct s as [|y s].
+    + destruct s'; [|discriminate]. rewrite !vdot_nil_r. lra.
+    + destruct s' as [|y' s']; [discriminate|]. destruct w as [|z w]; [discriminate|]. simpl in *.
+      inversion NZ as [|? ? Nz NZ']; subst. simpl map2. rewrite !vdot_cons.
+      assert (C0 := C O). unfold nthq in C0; simpl in C0.
+      assert (IH' : vdot (map2 Qdiv h w) s' * k == vdot h s).
+      { apply IH; auto; try lia. intros i. exact (C (S i)). }
+      assert (E : (x / z * y' + vdot (map2 Qdiv h w) s') * k ==
+                  x / z * (y' * k) + vdot (map2 Qdiv h w) s' * k) by ring.
+      rewrite E, C0, IH'. field. exact Nz.
+Qed.
+
+Definition same_support (s s' : vec) : Prop := Forall2 (fun x y => qzerob x = qzerob y) s s'.
+
+Lemma Forall2_firstn {A B} (R : A -> B -> Prop) n : forall l l', Forall2 R l l' -> Forall2 R (firstn n l) (firstn n l').
+Proof. induction n as [|n IH]; intros l l' H; simpl; [constructor|]. destruct H; constructor; auto. Qed.
+Lemma Forall2_skipn {A B} (R : A -> B -> Prop) n : forall l l', Forall2 R l l' -> Forall2 R (skipn n l) (skipn n l').
+Proof. induction n as [|n IH]; intros l l' H; simpl; auto. destruct H; [constructor|auto]. Qed.
+
+Lemma latent_row_support ph : forall prefs hv hf s s', same_support s s' ->
+  latent_row ph prefs hv hf s = latent_row ph prefs hv hf s'.
+Proof.
+  induction prefs as [|p prefs IH]; intros hv hf s s' S; [reflexivity|].
+  destruct hv as [|v hv]; [reflexivity|]. destruct hf as [|f hf]; [reflexivity|].
+  destruct S as [|x y s s' Hxy S]; [reflexivity|]. simpl. rewrite Hxy, (IH hv hf s s' S). reflexivity.
+Qed.
+
+Lemma latent_rows_support n prefs hv hf : forall phs s s', same_support s s' ->
+  latent_rows n phs prefs hv hf s = latent_rows n phs prefs hv hf s'.
+Proof.
+  induction phs as [|ph phs IH]; intros s s' S; [reflexivity|]. simpl.
+  rewrite (latent_row_support ph prefs hv hf _ _ (Forall2_firstn _ n _ _ S)).
+  rewrite (IH _ _ (Forall2_skipn _ n _ _ S)). reflexivity.
+Qed.
+
+Lemma support_of_pointwise : forall s s' : vec, length s' = length s ->
+  (forall i, (i < length s)%nat -> qzerob (nthq s i) = qzerob (nthq s' i)) -> same_support s s'.
+Proof.
+  induction s as [|x s IH]; intros [|y s'] L P; simpl in L; try discriminate; constructor.
+  - apply (P O). simpl. lia.
+  - apply IH; [lia|]. intros i Hi. apply (P (S i)). simpl. lia.
+Qed.
+
+Lemma nz_nthq w : Forall (fun x => ~ x == 0) w -> forall i, (i < length w)%nat -> ~ nthq w i == 0.
+Proof.
+  induction 1 as [|x w Hx Hw IH]; intros i Hi; simpl in Hi; [lia|].
+  destruct i; unfold nthq in *; simpl; auto. apply IH. lia.
+Qed.
+
+Lemma wt_of_support w r r' : wt_of w r r' -> length w = length (st r) -> Forall (fun x => ~ x == 0) w ->
+  same_support (st r) (st r').
+Proof.
+  intros (R & Xe & Ls & NZr & C) Lw NZ. apply support_of_pointwise; auto.
+  intros i Hi. specialize (C i). assert (Wi := nz_nthq w NZ i (eq_ind_r (fun n => (i < n)%nat) Hi Lw)).
+  destruct (qzerob (nthq (st r) i)) eqn:A; destruct (qzerob (nthq (st r') i)) eqn:B; auto.
+  - apply qzerob_true in A. apply qzerob_false in B. exfalso. rewrite A in C.
+    assert (Z : nthq (st r') i * nthq w (ridx r) == 0) by (rewrite C; ring).
+    apply Qmult_integral in Z. destruct Z; contradiction.
+  - apply qzerob_false in A. apply qzerob_true in B. exfalso. rewrite B in C.
+    assert (Z : nthq (st r) i * nthq w i == 0) by (rewrite <- C; ring).
+    apply Qmult_integral in Z. destruct Z; contradiction.
+Qed.
+
+Lemma dH_wt_phases_lemma c r r' d d' :
+  phases r <> [] -> phases r' = phases r -> wt r = false -> wt r' = true ->
+  let W := tile (Nat.max 1 (length (phases r))) (c_mw c) in
+  wt_of W r r' -> length W = length (st r) -> Forall (fun x => ~ x == 0) W ->
+  dH c r = Ok d -> dH c r' = Ok d' -> d' * nthq W (ridx r) == d.
+Proof.
+  intros P P' Wr Wr' W WO LW NZ D D'.
+  assert (S := wt_of_support W r r' WO LW NZ).
+  destruct WO as (R & Xe & Ls & NZr & C).
+  unfold dH, heats in D, D'. rewrite P' in D'.
+  destruct (phases r) as [|p ps] eqn:E; [congruence|].
+  rewrite <- (latent_rows_support _ _ _ _ _ _ _ S) in D'.
+  destruct (latent_rows (length (c_hf c)) (p :: ps) (c_pref c) (c_hvap c) (c_hfus c) (st r)) as [lat|e]; simpl in D, D'; [|discriminate].
+  rewrite Wr in D. rewrite Wr' in D'. inversion D; inversion D'; subst d d'.
+  fold W. rewrite Xe.
+  assert (H := vdot_wt_gen (vadd (tile (Nat.max 1 (length (p :: ps))) (c_hf c)) lat) W (st r) (st r')
+                 (nthq W (ridx r)) Ls LW NZ C).
+  unfold W in *. simpl in H |- *. rewrite <- H. ring.
+Qed.
+
+(* ====================================================================================== *)
+(* isothermal reaction of any object on either basis: the heat released, member by member    *)
+Definition heat_rset (g : vec) (s : rset) (v : vec) : Q :=
+  match s with
+  | Single r => X r * vdot g (st r) * nthq v (ridx r)
+  | Parallel rs => heat_parallel g v rs
+  | Series rs => heat_series g rs v
+  end.
+Fixpoint heat_parts (g : vec) (b : bool) (ps : list (bool * rset)) (v : vec) : Q :=
+  match ps with
+  | [] => 0
+  | (pb, s) :: t => if Bool.eqb pb b then heat_rset g s v + heat_parts g b t (react_rset s v) else 0
+  end.
+Definition heat_obj (g : vec) (o : robj) (v : vec) : Q :=
+  match o with Simple _ s => heat_rset g s v | System b ps => heat_parts g b ps v end.
+
+Lemma rset_dot g s v : Forall (wf (length v)) (rset_members s) ->
+  vdot g (react_rset s v) == vdot g v + heat_rset g s v.
+Proof.
+  destruct s as [r|rs|rs]; simpl; intros W.
+  - inversion W; subst. rewrite react_dot by auto. ring.
+  - unfold react_parallel. apply parallel_dot; auto.
+  - apply series_dot; auto.
+Qed.
+
+Lemma parts_dot g b ps : forall v, Forall (wf (length v)) (concat (map (fun p => rset_members (snd p)) ps)) ->
+  vdot g (fst (react_parts b ps v)) == vdot g v + heat_parts g b ps v.
+Proof.
+  induction ps as [|[pb s] t IH]; intros v W; simpl; [lra|].
+  simpl in W. apply Forall_app in W. destruct W as (Ws & Wt).
+  destruct (Bool.eqb pb b); simpl; [|lra].
+  destruct (rset_spec s v Ws) as (L & _).
+  rewrite IH by (rewrite L; auto). rewrite rset_dot by auto. ring.
+Qed.
+
+Lemma obj_dot g o v : Forall (wf (length v)) (obj_members o) ->
+  vdot g (fst (react_obj o v)) == vdot g v + heat_obj g o v.
+Proof.
+  destruct o as [b s|b ps]; simpl; intros W; [apply rset_dot|apply parts_dot]; auto.
+Qed.
+
+(* any functional g of the molar flows of a stream, either basis, no clamp *)
+Lemma stream_functional_lemma g w o mol mol' :
+  length w = length mol -> Forall (fun x => ~ x == 0) w ->
+  Forall (wf (length mol)) (obj_members o) ->
+  nonneg (fst (react_obj o (buffer o w mol))) ->
+  call_stream w o mol = (None, mol') ->
+  vdot g mol' - vdot g mol == heat_obj (weights o w g) o (buffer o w mol).
+Proof.
+  intros L NZ W Nn C. destruct (call_stream_ok _ _ _ _ C) as (_ & E).
+  assert (LB : length (buffer o w mol) = length mol).
+  { unfold buffer, to_mass. destruct (obasis o); auto. apply vmul_length. auto. }
+  assert (W' : Forall (wf (length (buffer o w mol))) (obj_members o)) by (rewrite LB; exact W).
+  assert (D := obj_dot (weights o w g) o (buffer o w mol) W').
+  assert (Base : vdot (weights o w g) (buffer o w mol) == vdot g mol).
+  { unfold weights, buffer, to_mass. destruct (obasis o); [|lra]. apply vdot_div_mass; auto. }
+  assert (Res : vdot g mol' == vdot (weights o w g) (fst (react_obj o (buffer o w mol)))).
+  { rewrite E. rewrite (clampv_id _ Nn). unfold weights, of_mass. destruct (obasis o); [|lra]. apply vdot_of_mass. }
+  rewrite Res, D, Base. ring.
+Qed.
+
+Lemma isothermal_object_lemma Hfun hf hs lat w o s s' :
+  (forall m T, Hfun m T == vdot (hs T) m) ->
+  length w = length (smol s) -> Forall (fun x => ~ x == 0) w ->
+  Forall (wf (length (smol s))) (obj_members o) ->
+  length hf = length lat -> length (hs (sT s)) = length lat ->
+  nonneg (fst (react_obj o (buffer o w (smol s)))) ->
+  isothermal w o s = (None, s') ->
+  Hnet Hfun hf s' - Hnet Hfun hf s ==
+    heat_obj (weights o w (vadd hf lat)) o (buffer o w (smol s))
+    + (vdot (vsub (hs (sT s)) lat) (smol s') - vdot (vsub (hs (sT s)) lat) (smol s)).
+Proof.
+  intros HL L NZ W L1 L2 Nn I.
+  destruct (isothermal_any_lemma Hfun hf hs HL w o s s' I) as (_ & E). rewrite E. clear E.
+  assert (C : call_stream w o (smol s) = (None, smol s')).
+  { unfold isothermal in I. destruct (call_stream w o (smol s)) as [e m']. inversion I; subst. reflexivity. }
+  assert (F := stream_functional_lemma (vadd hf lat) w o (smol s) (smol s') L NZ W Nn C).
+  rewrite !vdot_vadd_l in F by auto. rewrite !vdot_vsub_l by auto. rewrite <- F. ring.
+Qed.
+
+(* the summand of a member is its reported heat of reaction times the reactant it was fed: any two
+   heat vectors that agree where the stoichiometry is non-zero give the same dH *)
+Lemma vdot_support : forall (u v s : vec), length u = length v ->
+  (forall j, ~ nthq s j == 0 -> nthq u j == nthq v j) -> vdot u s == vdot v s.
+Proof. exact C05.Proofs.vdot_agree. Qed.
+
+(* ====================================================================================== *)
+(* adiabatic reaction of a single-phase Stream with the H setter's phase fallback            *)
+Section FlipEnergy.
+  Variable HfunP : nat -> vec -> Q -> Q.
+  Variable solveP : nat -> vec -> Q -> res Q.
+  Variable hf : vec.
+  Hypothesis solveP_ok : forall ph m h t, solveP ph m h = Ok t -> HfunP ph m t == h.
+  Hypothesis HP_empty : forall ph m t, isempty m = true -> HfunP ph m t == 0.
+
+  Lemma retryH_ok s h ph' s' : retryH solveP s h ph' = (None, s') ->
+    pmol s' = pmol s /\ pph s' = ph' /\ HfunP (pph s') (pmol s') (pT s') == h.
+  Proof.
+    unfold retryH. destruct (solveP ph' (pmol s) h) as [t|e] eqn:S; [|discriminate].
+    intros H; inversion H; subst. simpl. split; [reflexivity|]. split; [reflexivity|]. apply (solveP_ok _ _ _ _ S).
+  Qed.
+
+  Lemma setH_flip_ok s h s' : setH_flip solveP s h = (None, s') ->
+    pmol s' = pmol s /\ HfunP (pph s') (pmol s') (pT s') == h.
+  Proof.
+    unfold setH_flip. destruct (qzerob h && isempty (pmol s)) eqn:E.
+    - intros H; inversion H; subst. apply Bool.andb_true_iff in E. destruct E as (Z & Em).
+      apply qzerob_true in Z. split; auto. rewrite (HP_empty _ _ _ Em). lra.
+    - destruct (solveP (pph s) (pmol s) h) as [t|e] eqn:S.
+      + intros H; inversion H; subst. simpl. split; [reflexivity|]. apply (solveP_ok _ _ _ _ S).
+      + destruct (lower_phase (pph s)) as [|[|[|n]]]; try discriminate;
+          intros H; destruct (retryH_ok _ _ _ _ H) as (A & _ & B); auto.
+  Qed.
+
+  Lemma adiabatic_flip_lemma is_stream w o s Qin s' :
+    adiabatic_flip HfunP solveP hf is_stream w o s Qin = (None, s') ->
+    HnetP HfunP hf s' == HnetP HfunP hf s + Qin /\ call_stream w o (pmol s) = (None, pmol s').
+  Proof.
+    unfold adiabatic_flip. destruct is_stream; simpl; [|discriminate].
+    destruct (call_stream w o (pmol s)) as [[e|] mol'] eqn:C; [discriminate|].
+    intros H. destruct (setH_flip_ok _ _ _ H) as (M & V). simpl in M.
+    split; [|rewrite M; reflexivity].
+    unfold HnetP at 1. rewrite V, M. simpl. unfold HnetP. lra.
+  Qed.
+
+  (* what the stream holds when adiabatic_reaction raises: T is the one before; the flows are
+     whatever the reaction step left; the phase is the original one unless the first solve failed
+     in a fluid phase, in which case it is the OTHER fluid phase *)
+  Lemma adiabatic_flip_error_lemma w o s Qin e s' :
+    adiabatic_flip HfunP solveP hf true w o s Qin = (Some e, s') ->
+    pT s' = pT s /\ pmol s' = snd (call_stream w o (pmol s)) /\
+    (fst (call_stream w o (pmol s)) = Some e /\ pph s' = pph s \/
+     fst (call_stream w o (pmol s)) = None /\
+       exists h e1, solveP (pph s) (pmol s') h = Err e1 /\
+         (lower_phase (pph s) = 1%nat /\ pph s' = 2%nat /\ solveP 2 (pmol s') h = Err e \/
+          lower_phase (pph s) = 2%nat /\ pph s' = 1%nat /\ solveP 1 (pmol s') h = Err e \/
+          lower_phase (pph s) <> 1%nat /\ lower_phase (pph s) <> 2%nat /\ pph s' = pph s /\ e = e1)).
+  Proof.
+    unfold adiabatic_flip. simpl.
+    destruct (call_stream w o (pmol s)) as [[e0|] mol'] eqn:C; simpl.
+    - intros H; inversion H; subst. simpl. repeat split; auto.
+    - unfold setH_flip. simpl.
+      destruct (qzerob _ && isempty mol'); [discriminate|].
+      set (h := HnetP HfunP hf s + Qin - Hf_of hf mol').
+      destruct (solveP (pph s) mol' h) as [t|e1] eqn:S1; [discriminate|].
+      destruct (lower_phase (pph s)) as [|[|[|n]]] eqn:LP; unfold retryH; simpl.
+      + intros H; inversion H; subst. simpl. repeat split; auto. right. split; auto.
+        exists h, e. split; auto. right. right. repeat split; auto; lia.
+      + destruct (solveP 2 mol' h) as [t|e2] eqn:S2; [discriminate|].
+        intros H; inversion H; subst. simpl. repeat split; auto. right. split; auto.
+        exists h, e1. split; auto.
+      + destruct (solveP 1 mol' h) as [t|e2] eqn:S2; [discriminate|].
+        intros H; inversion H; subst. simpl. repeat split; auto. right. split; auto.
+        exists h, e1. split; auto.
+      + intros H; inversion H; subst. simpl. repeat split; auto. right. split; auto.
+        exists h, e. split; auto. right. right. repeat split; auto; lia.
+  Qed.
+End FlipEnergy.
